@@ -159,6 +159,20 @@ def is_lit_bool(v: V) -> typing.Optional[bool]:
 # ------------------------------------------------------------------------------------------------
 
 
+def lift_py(x: typing.Any) -> "V":
+    """a concrete Python configuration value as an interpreter value: scalars become literals, everything else stays an
+    opaque ("py", object) constant that hooks know how to index, iterate, compare and call"""
+    if x is None:
+        return NONE
+    if isinstance(x, bool):
+        return TRUE if x else FALSE
+    if isinstance(x, int):
+        return VInt(int_lit(x))
+    if isinstance(x, str):
+        return VStr(smt.str_lit(x))
+    return VConst(("py", x))
+
+
 @dataclasses.dataclass
 class Loop:
     invariant: typing.List[str] = dataclasses.field(default_factory=list)
@@ -166,6 +180,7 @@ class Loop:
     havoc: typing.Optional[typing.List[str]] = None  # default: variables assigned in the loop
     ghost_update: typing.Optional[typing.Callable] = None  # for abstract iterators
     iter_kind: typing.Optional[str] = None
+    unroll: bool = False  # iterate a CONCRETE collection (configuration constant) element by element: no invariant needed
 
 
 @dataclasses.dataclass
@@ -489,7 +504,8 @@ class Ctx:
         if t != "true":
             self.pc.append(t)
 
-    def prove(self, goal: str, kind: str, label: str, theory: typing.Optional[str] = None, extra: typing.Optional[dict] = None) -> None:
+    def prove(self, goal: str, kind: str, label: str, theory: typing.Optional[str] = None, extra: typing.Optional[dict] = None,
+              alt: typing.Optional[typing.List[typing.List[str]]] = None) -> None:
         if goal == "true":
             # still an obligation, trivially discharged; record for counting without a solver call
             self.ex.trivial += 1
@@ -514,6 +530,8 @@ class Ctx:
         if cut:
             # purely inductive variant: only what was assumed/learnt since the innermost loop cut
             ob.alt_assumptions.append(list(self.pc[cut:]))
+        for a in alt or []:
+            ob.alt_assumptions.append(list(a))
         self.ex.add_obligation(ob)
 
     # -- conversions -------------------------------------------------------------------------
@@ -814,9 +832,15 @@ class Interp:
                     continue
                 w = self._in_old(lambda: self.spec_bool(rs.when))
                 ctx.prove(Not(w), "post", f"no-return-when-{rs.exc}-required")
+            earlier: typing.List[str] = []
             for name, text in c.ensures:
                 g = self.spec_bool(text, {"result": outcome[1]})
-                ctx.prove(g, "post", name)
+                # cut rule: a postcondition may also be derived from the postconditions listed before it alone (each of
+                # those is an obligation of its own at this exit, so the verdict needs all of them discharged anyway);
+                # `unsat` on that small hypothesis set is a proof, `sat` there is ignored
+                ctx.prove(g, "post", name, alt=[list(earlier)] if earlier else None)
+                if g != "true":
+                    earlier.append(g)
             if c.post_hook:
                 c.post_hook(self, outcome)
             ctx.ex.engine  # noqa
@@ -999,6 +1023,10 @@ class Interp:
             # message arguments are evaluated only for their effects/obligations if they are simple
             payload = None
         else:
+            if isinstance(exc, ast.Name) and isinstance(self.ctx.env.get(exc.id), VConst):
+                o = self.ctx.env[exc.id].obj  # type: ignore
+                if isinstance(o, tuple) and o and o[0] == "exception":
+                    raise PyRaise(o[1], payload)  # `raise pending_error`: re-raise a caught/passed exception object
             name = self._dotted(exc)
         raise PyRaise(name.split(".")[-1], payload)
 
@@ -1183,6 +1211,27 @@ class Interp:
         idx, lp = self._loop_contract(s)
         ctx = self.ctx
         it = self.eval(s.iter)
+        if lp.unroll:
+            items = None
+            if isinstance(it, (VList, VTuple)):
+                items = list(it.items)
+            elif isinstance(it, VConst) and isinstance(it.obj, tuple) and it.obj and it.obj[0] == "py" and isinstance(it.obj[1], (list, tuple)):
+                items = [lift_py(x) for x in it.obj[1]]
+            if items is None:
+                raise OutOfSubset(f"unrolled for over a non-concrete collection ({it.sort})")
+            broke = False
+            for x in items:
+                self.assign(s.target, x)
+                try:
+                    self.exec_block(s.body)
+                except _Break:
+                    broke = True
+                    break
+                except _Continue:
+                    pass
+            if not broke:
+                self.exec_block(s.orelse)
+            return
         h = self.e.intrinsics.get("for:" + (it.cls if isinstance(it, VObj) else it.sort))
         if h is None:
             raise OutOfSubset(f"for over {it.sort}")
@@ -1280,8 +1329,34 @@ class Interp:
         return h(self, keys, vals)
 
     def e_JoinedStr(self, n: ast.JoinedStr) -> V:
-        # f-strings only occur in messages; result is an unconstrained string
-        return VStr(self.ctx.fresh("String", "fstr"))
+        # plain {expr} pieces of string type are concatenated; a piece with a conversion/format spec goes through the
+        # "format:<spec>" intrinsic if one is registered; anything else (messages) is an unconstrained string
+        parts: typing.List[str] = []
+        try:
+            for v in n.values:
+                if isinstance(v, ast.Constant) and isinstance(v.value, str):
+                    parts.append(smt.str_lit(v.value))
+                elif isinstance(v, ast.FormattedValue) and v.conversion == -1:
+                    spec = None
+                    if v.format_spec is not None:
+                        fs = v.format_spec
+                        if not (isinstance(fs, ast.JoinedStr) and len(fs.values) == 1 and isinstance(fs.values[0], ast.Constant)):
+                            raise OutOfSubset("computed format spec")
+                        spec = fs.values[0].value
+                    x = self.eval(v.value)
+                    if spec is None and isinstance(x, VStr):
+                        parts.append(x.t)
+                    elif spec is not None and ("format:" + spec) in self.e.intrinsics:
+                        parts.append(self.e.intrinsics["format:" + spec](self, x).t)
+                    else:
+                        raise OutOfSubset("f-string piece")
+                else:
+                    raise OutOfSubset("f-string piece")
+        except (OutOfSubset, PyRaise):
+            return VStr(self.ctx.fresh("String", "fstr"))
+        if not parts:
+            return VStr('""')
+        return VStr(parts[0] if len(parts) == 1 else app("str.++", *parts))
 
     def e_IfExp(self, n: ast.IfExp) -> V:
         c = self.eval(n.test)
@@ -1503,6 +1578,17 @@ class Interp:
             if n.slice.step is not None:
                 raise OutOfSubset("slice step")
             return self.slice(o, lo, hi)
+        if isinstance(o, VConst) and isinstance(o.obj, tuple) and o.obj and o.obj[0] == "py" and isinstance(o.obj[1], dict):
+            k = self.eval(n.slice)
+            try:
+                key = smt.smt_str(k.t) if isinstance(k, VStr) else None
+            except AssertionError:
+                key = None
+            if key is None:
+                raise OutOfSubset("configuration dict indexed by a symbolic key")
+            if key not in o.obj[1]:
+                raise PyRaise("KeyError")
+            return lift_py(o.obj[1][key])
         if isinstance(o, VConst) and not (isinstance(o.obj, tuple) and o.obj and o.obj[0] in ("regex",)):
             return VConst(("type-expression", ast.unparse(n)))  # typing.X[...] : a type, only ever handed to cast()
         k = self.eval(n.slice)
@@ -1532,6 +1618,10 @@ class Interp:
     def slice(self, o: V, lo: typing.Optional[V], hi: typing.Optional[V]) -> V:
         if isinstance(o, VStr):
             ln = app("str.len", o.t)
+            ks = getattr(self.ctx, "known_suffix", {})
+            if hi is None and isinstance(lo, VInt) and (o.t, lo.t) in ks:
+                # o == prefix ++ rest with len(prefix) == lo was established by an intrinsic (e.g. a regex match): o[lo:] is rest
+                return VStr(ks[(o.t, lo.t)])
 
             def norm(v: typing.Optional[V], default: str) -> str:
                 if v is None or isinstance(v, VNone):
